@@ -300,6 +300,38 @@ def run_case(case, ctx):
             ctx.violation(K + "predict/sorted-differs/after-set_params", "predict_sorted changed after set_params",
                           cfg=cfg)
     ir.set_params(n_estimators=m)
+    # a base regressor that answers NaN outside the range of ids it was trained on (a radius-neighbours model with no
+    # neighbour): predict is the mean of ALL individual predictions, so NaN wherever one member says NaN
+    if size_a > 0 and n >= 3:
+        from sklearn.base import BaseEstimator as _BE2, RegressorMixin as _RM2
+
+        class NanOutside(_RM2, _BE2):
+            def fit(self, X, y, sample_weight=None):
+                Xd = numpy.asarray(X.toarray() if hasattr(X, "toarray") else X)
+                self.lo_, self.hi_ = float(Xd[:, 0].min()), float(Xd[:, 0].max())
+                self.mean_ = float(numpy.mean(y))
+                return self
+
+            def predict(self, X):
+                v = numpy.asarray(X)[:, 0].astype(float)
+                return numpy.where((v < self.lo_) | (v > self.hi_), numpy.nan, self.mean_)
+
+        irn = IntervalRegressor(estimator=NanOutside(), n_estimators=6, alpha=min(alpha, 0.5))
+        try:
+            numpy.random.seed(7)
+            irn.fit(X, y)
+            Qn = numpy.column_stack([numpy.sort(ids)[:: max(1, n // 6)], numpy.zeros(len(ids[:: max(1, n // 6)])),
+                                     numpy.zeros(len(ids[:: max(1, n // 6)]))])
+            mem = numpy.column_stack([e.predict(Qn) for e in irn.estimators_])
+            pn = numpy.asarray(irn.predict(Qn), dtype=float)
+            ctx.hit("predict.nan_answers")
+            ctx.extra["rows_with_some_nan"] = int((numpy.isnan(mem).any(axis=1) & ~numpy.isnan(mem).all(axis=1)).sum())
+            if not numpy.allclose(pn, mem.mean(axis=1), rtol=1e-12, atol=1e-12, equal_nan=True):
+                ctx.violation(K + "predict/not-mean/members-answer-nan", "some members answer NaN for a row: predict is "
+                              "%r, the mean of the individual predictions is %r" % (
+                                  pn[:4].tolist(), mem.mean(axis=1)[:4].tolist()), cfg=cfg)
+        except Exception as e:
+            ctx.violation(K + "predict/raised/%s/nan-answers" % type(e).__name__, str(e)[:150], cfg=cfg)
     # a base regressor that cannot take the weights of its rows (no sample_weight argument / refuses them with a
     # TypeError): the weights given to fit are either used or the call is refused - never dropped silently
     if w is not None and size_a > 0:
